@@ -236,15 +236,21 @@ class Run:
         return out
 
 
-def drive_to_end(run, rng, fail=(), hang_s=None, order='random', max_s=120):
+def drive_to_end(run, rng, fail=(), hang_s=None, order='random', max_s=120, hold_s=0.0):
     """Releases gated builds (in a random order, failing those in `fail`) until the process exits or hangs.
     Returns 'exited' | 'hung' | 'alive-idle' (idle with nothing pending; caller decides whether that is expected)."""
     hang_s = HANG_S if hang_s is None else hang_s
     t0 = time.time()
+    held = False
     while time.time() - t0 < max_s:
         if run.poll() is not None:
             return 'exited'
         pend = run.pending()
+        if pend and hold_s and not held:
+            # keep the first builds in progress for a while: lets slow message paths (long aggregate chains) arrive first
+            time.sleep(hold_s)
+            held = True
+            continue
         if pend:
             if order == 'random':
                 # let concurrent starts accumulate a little so that the choice is a real one (not a verdict)
